@@ -45,7 +45,15 @@ class Monitor:
                 if event == "import":
                     rec = (event, args[0])
                 elif event == "open":
-                    rec = (event, args[0] if isinstance(args[0], (str, bytes, int)) else repr(args[0]), args[1])
+                    # builtins.open gives (path, mode, flags); os.open gives (path, None, flags)
+                    mode = args[1]
+                    if mode is None and len(args) > 2 and isinstance(args[2], int):
+                        f = args[2]
+                        acc = f & os.O_ACCMODE
+                        mode = ("r" if acc == os.O_RDONLY else "w" if acc == os.O_WRONLY else "r+")
+                        if f & (os.O_CREAT | os.O_TRUNC | os.O_APPEND) and "w" not in mode and "+" not in mode:
+                            mode += "+"
+                    rec = (event, args[0] if isinstance(args[0], (str, bytes, int)) else repr(args[0]), mode)
                 elif event in ("exec", "compile"):
                     rec = (event,)
                 elif event == "pickle.find_class":
